@@ -482,7 +482,7 @@ def instances(tier):
 BOUNDS = {
     'quick': 'sample: shapes (2,2),(2,3),(2,2,2), rank <= 2, every target multi-index, symbolic non-negative cores; sample_square: '
              'generic 2x2 rank 2 (RQ parametrised) for every target, super-diagonal d=3; unique rows; sample_lhs m<=4 with all '
-             'outcomes of the draws forked; sample_tt layout for (2,2),(2,2,2); sample_rand / sample_rand_poi shapes and bounds',
+             'outcomes of the draws forked; sample_tt layout for (2,2),(2,2,2); sample_rand / sample_rand_poi shapes and bounds on (2,3),(3,2,4),(4,2,3),(2,1,3)',
     'thorough': 'adds (3,2,2) for sample, super-diagonal d=4 and n=3, lhs with m up to 6, sample_tt with n=3',
 }
 OUTSIDE = ('statistical quality of the generator (draws are nondeterministic within their contract); the default unsert=1e-10 '
